@@ -229,7 +229,19 @@ Fixpoint c05_clauses (cfg : config) (c : chk) (s : state) (l : list (op * obs)) 
   | (o, b) :: r =>
     let s' := observe s o b in
     let here := match o with
-                | OVotes _ | OEvidence _ | OUpPause _ | OUpgrade =>
+                | OUpPause vs =>
+                    (* [vs] is the harness' own record of who did not approve (persons, renamed by rotations):
+                       approving validators keep their status, non-approving ACTIVE ones are paused *)
+                    match o_res b with
+                    | RPanic => ["blocker-panic:" ++ op_label o]
+                    | _ =>
+                      ((if forallb (fun e : Z * vrec => smem (fst e) vs || negb (status_changed (st_vals s) (st_vals s') (fst e))) (st_vals s')
+                        then [] else ["upgrade-pause:approving-validator-paused"]) ++
+                       (if forallb (fun e : Z * vrec => negb (smem (fst e) vs && is_active (v_status (snd e))) ||
+                                      match lookup (fst e) (st_vals s') with Some r => status_eqb (v_status r) SPaused | None => false end) (st_vals s)
+                        then [] else ["upgrade-pause:non-approving-validator-not-paused"]))%list
+                    end
+                | OVotes _ | OEvidence _ | OUpgrade =>
                     (* a BeginBlocker that panics stops the chain as surely as an unusable update *)
                     match o_res b with RPanic => ["blocker-panic:" ++ op_label o] | _ => [] end
                 | OPause _ =>
